@@ -48,7 +48,7 @@ Theorem verdict_is_rule fs asts p :
   map own_ast fs = map Some asts -> model_verdict fs p = Ok (spec_verdict asts p).
 Proof.
   intros H. destruct (own_asts_split _ _ H) as (sp & Hs & Hk & Hp).
-  unfold model_verdict, boss_verdict, compile_filters. rewrite Hs.
+  unfold model_verdict, boss_verdict, compile_filters, compile_filters_w. rewrite Hs.
   pose proof (regex_set_wrapped _ _ Hp) as HR. cbv zeta. rewrite HR. cbn [obind].
   unfold doer_verdict. cbn [fl_patterns fl_kinds]. rewrite HR, Hk.
   unfold apply_filters, spec_verdict. destruct p as [|c p]; [reflexivity|].
@@ -118,6 +118,19 @@ Proof.
   - rewrite (rule_is_text asts (c :: p) Inc) by discriminate. split; [intros [H|H]; [discriminate|exact H] | right; assumption].
 Qed.
 
+(* The defect F1 at the level of verdicts: on the pinned tree "-a|b" also excludes "ab" (and "xb", "ax"),
+   which the documented rule includes. *)
+Lemma old_wrap_refuted :
+  let fs := [["-"; "a"; "|"; "b"]] in let p := ["a"; "b"] in
+  old_verdict fs p = Ok Exc /\ model_verdict fs p = Ok Inc /\
+  exists asts, map own_ast fs = map Some asts /\ spec_verdict asts p = Inc.
+Proof.
+  cbv zeta. split; [vm_compute; reflexivity|]. split; [vm_compute; reflexivity|].
+  destruct (own_ast ["-"; "a"; "|"; "b"]) as [a|] eqn:E; [|vm_compute in E; discriminate].
+  exists [a]. split; [cbn [map]; rewrite E; reflexivity|].
+  vm_compute in E. injection E as <-. vm_compute. reflexivity.
+Qed.
+
 (* ---------------------------------------------------------------------------------------- *)
 (* both sides *)
 Lemma all_some_length {A} (l : list (option A)) r : all_some l = Some r -> length r = length l.
@@ -139,7 +152,7 @@ Theorem shipped_set_works fs fl : compile_filters fs = Ok fl ->
   length (fl_kinds fl) = length (fl_patterns fl) /\
   forall p, exists v, doer_verdict fl p = Ok v /\ boss_verdict fs p = Ok v.
 Proof.
-  unfold boss_verdict. intros H. rewrite H. cbn [obind]. revert H. unfold compile_filters.
+  unfold boss_verdict. intros H. rewrite H. cbn [obind]. revert H. unfold compile_filters, compile_filters_w.
   destruct (all_some (map split_sign fs)) as [sp|] eqn:Hs; [|discriminate].
   cbv zeta. destruct (regex_set (map (fun x => wrap (snd x)) sp)) as [res|] eqn:HR; [|discriminate].
   intros H; injection H as <-. cbn [fl_kinds fl_patterns].
